@@ -27,7 +27,7 @@ DRest(f) == [f EXCEPT !.code = Tail(f.code)]
 DAppendElem(f, name, v) == [f EXCEPT !.obj = (name :> Append(f.obj[name], v)) @@ f.obj]
 
 DStartState(data, code, cls, chunked0, fuel0) ==
-  [r |-> [data |-> data, pos |-> 0, chunked |-> chunked0, cs |-> 0],
+  [r |-> [data |-> data, pos |-> 0, chunked |-> chunked0, cs |-> 0, log |-> <<>>],      \* log: the chunked mode at every primitive reader call so far
    dstack |-> <<[code |-> code, saved |-> chunked0, start |-> 0, obj |-> [_t |-> cls], inch |-> FALSE,
                  lens |-> [x \in {} |-> 0], dest |-> [k |-> "root"], cls |-> cls]>>,
    dstatus |-> "running", dexc |-> "", dfuel |-> fuel0, dresult |-> NoneV]
@@ -40,11 +40,12 @@ DRaise(e, f) == dstatus' = "raising" /\ dexc' = e /\ dstack' = DWithTop(f) /\ UN
 DSkip(f) == dstack' = DWithTop(f) /\ UNCHANGED <<r, dstatus, dexc, dfuel, dresult>>
 \* perform reader call c, then continue with K(return value) as the new top frame
 AfterRead(c, K(_)) ==
-  IF dfuel = 0 THEN /\ dstatus' = "raising" /\ dexc' = "Fault" /\ dfuel' = -1 /\ UNCHANGED <<r, dstack, dresult>>
+  LET logged == Append(r.log, r.chunked) IN
+  IF dfuel = 0 THEN /\ dstatus' = "raising" /\ dexc' = "Fault" /\ dfuel' = -1 /\ r' = [r EXCEPT !.log = logged] /\ UNCHANGED <<dstack, dresult>>
   ELSE LET x == RD!RApply(r, c)
        IN  /\ dfuel' = (IF dfuel > 0 THEN dfuel - 1 ELSE dfuel)
-           /\ IF x.exc = "" THEN r' = x.r /\ dstack' = DWithTop(K(x.ret)) /\ UNCHANGED <<dstatus, dexc, dresult>>
-              ELSE dstatus' = "raising" /\ dexc' = x.exc /\ UNCHANGED <<r, dstack, dresult>>
+           /\ IF x.exc = "" THEN r' = [x.r EXCEPT !.log = logged] /\ dstack' = DWithTop(K(x.ret)) /\ UNCHANGED <<dstatus, dexc, dresult>>
+              ELSE dstatus' = "raising" /\ dexc' = x.exc /\ r' = [r EXCEPT !.log = logged] /\ UNCHANGED <<dstack, dresult>>
 
 \* a length as the plain integer handed to get_fixed_*string: negative stays negative, huge is clamped above any data size
 ClampLen(l) == IF LIsNeg(l) THEN -1 ELSE IF LLess(<<0, 60000>>, l) THEN 60000 ELSE LToInt(l)
